@@ -7,7 +7,7 @@ from . import core
 CHECKS = {
     "C13": dict(
         technique="runtime monitoring: exhaustive operator/value matrix executed through run_checks, judged by a Python reference oracle",
-        text="Every ordered pair of a 46-value universe x 5 comparison operators x both polarities x {query RHS, literal RHS, literal-bound variable as LHS}, the in-list, "
+        text="Every ordered pair of a 46-value universe x 5 comparison operators x both polarities x {query RHS, literal RHS, literal-bound variable as LHS}, random operands beyond the universe (random 64-bit integers and neighbours, random-bit-pattern doubles, unicode strings), the in-list (incl. a literal on the left and a document list on the right), "
              "range-bracket and regex forms are executed against the real evaluator and each verdict is compared with Python "
              "semantics on the model values. Exhaustive on that finite universe; says nothing outside it.",
         note="Trusts: Python int/float/str comparison and re.search as the reference; json round trip of the universe. "
@@ -50,9 +50,10 @@ CHECKS["C15"] = dict(
     technique="runtime monitoring: metamorphic abstraction-step monitor (let/parameter introduction and inlining) with hook-observed variable resolution",
     text="For random programs, one abstraction step at a time is applied at sampled abstraction sites - literal->%v at file/rule/block "
          "scope, query prefix->%v in a same-context scope, all-references variant, unused lets (incl. unresolvable and erroring ones), "
-         "shadowing, inlining of parameterised-rule calls - and both programs are evaluated on the same document; the rule->status maps "
+         "shadowing, a key of a query taken from a variable (`a.%k`), inlining of parameterised-rule calls - and both programs are evaluated on the same document; the rule->status maps "
          "must agree. Divergences are classified (hypothesis program for the `[*]`-after-variable quirk, per-line attribution for inlining) "
-         "so that known findings have narrow signatures.",
+         "so that known findings have narrow signatures. Exhaustive key-interpolation matrix (12 clause forms x 3 polarities x 12 value classes x file/rule/block scope), call-volume check "
+         "(3/70/200 elements x call per element, nested, 90 sequential, negated; twice per process) and idle-argument check (rewriting the argument of an unread parameter as `some q` or a literal).",
     note="Skips the documented exception (`q empty` -> `%v empty`). Trusts the printer. Known findings: three classes in known_findings.json.",
     ref="DESIGN.md §6 P-C15")
 
@@ -69,7 +70,7 @@ CHECKS["C06"] = dict(
     technique="runtime monitoring: real-process exit-status monitor with a scenario classifier as oracle",
     text="The shipped binary is run as real processes on scenarios built from finite classes (1..3 rules files from 7 kinds x 1..3 data "
          "files from 5 kinds, every position, x 12 invocation modes incl. payload, stdin, directories, structured json/yaml/junit/sarif; "
-         "`test` scenarios x 4 formats x 3 layouts - files, directory, directory with 2-3 rules files and the scenario file at each position); the exit status must fall in the class a 30-line classifier derives from what the "
+         "`test` scenarios x 4 formats x 4 layouts - files, directory, directory with 2-3 rules files and the scenario file at each position, --test-data directory with the scenario file in a sub-directory); the exit status must fall in the class a 30-line classifier derives from what the "
          "generator built (per-pair verdicts confirmed by singleton library runs); in-process results must agree with process exits; "
          "missing paths and unusable option combinations must give an error exit, never 0 or 19.",
     note="Trusts singleton run_checks verdicts for pair classification and PyYAML for deciding that a 'malformed' sample really is malformed. "
@@ -78,10 +79,10 @@ CHECKS["C06"] = dict(
 
 CHECKS["C05"] = dict(
     technique="runtime monitoring: repeated-execution differential monitor (fresh processes, rotated environments, in-process repetition)",
-    text="24 command/output modes (validate structured json/yaml/sarif/junit, plain json/yaml, print-json, console variants, parse-tree, test in "
+    text="27 command/output modes (validate structured json/yaml/sarif/junit, plain json/yaml, print-json, console variants, parse-tree, test in "
          "4 renderings, rulegen, and 4 modes of function rules: parse_epoch over 12 timestamp spellings incl. zone-less and DST-gap ones, case mapping, "
-         "conversions, join/regex_replace; 2 console modes on Terraform-plan-shaped data) are each run 5 (quick) / 8 (thorough) times as fresh processes of the shipped binary - fresh hash seeds - under "
-         "rotated TZ (tzdata names and POSIX strings)/LANG/HOME/COLUMNS/NO_COLOR/RUST_BACKTRACE/cwd/pipe-vs-file, and payload modes 5 times inside one process; exit codes must be "
+         "conversions, join/regex_replace; 2 console modes on Terraform-plan-shaped data; 3 modes writing to an --output file that held other content before) are each run 5 (quick) / 8 (thorough) times as fresh processes of the shipped binary - fresh hash seeds - under "
+         "rotated TZ (tzdata names and POSIX strings)/LANG/HOME/COLUMNS/NO_COLOR/CLICOLOR_FORCE/RUST_BACKTRACE/cwd/pipe-vs-file, and payload modes 5 times inside one process; exit codes must be "
          "equal, structured output byte-identical (elapsed-time fields masked), console output equal as a multiset of lines; what a structured "
          "json/yaml/junit/sarif batch says about one data file must equal what the run on that file alone says (nothing evaluated earlier in the process).",
     note="A random ordering of k items escapes N runs with probability (1/k!)^(N-1); inputs have >=3 rules/files per collection. Environment rotation is a sample, not all environments.",
@@ -91,7 +92,7 @@ CHECKS["C09"] = dict(
     technique="runtime monitoring: cross-channel monitor (verbose record tree vs structured report of the same evaluation)",
     text="Random programs with distinct rule names and a unique custom message on every clause are evaluated on random documents; the "
          "structured report (library and `validate --structured -o json`) is checked against the verbose record tree of the same "
-         "evaluation: each rule in exactly the partition its status dictates, file-status rule, batch report over 1-3 rules files == union of "
+         "evaluation: each rule in exactly the partition its status dictates, file-status rule, batch report over 1-3 rules files (distinct names or one base name in different directories) == union of "
          "single reports, every reported leaf check attributable (by message) to a FAIL value check in that rule's own subtree; records and report entries of "
          "parameterised calls (incl. nested and message-less ones) must carry exactly the message written at that call in the rules text.",
     note="The verbose tree is the ground truth (its own consistency is C02). Reported leaves are matched by custom message; leaves without a message match any FAIL record of the rule.",
@@ -102,8 +103,9 @@ CHECKS["C07"] = dict(
     text="For random programs x documents the structured JSON report is the baseline and ~70 other configurations (structured yaml/sarif/junit, plain "
          "single-line/json/yaml x 7 --show-summary selections x {-, -v, -p}, data on stdin, --payload plain and structured, run_checks and the FFI "
          "function in verbose and report mode, incl. reports > 8 KiB) are parsed back by independent parsers (python json, PyYAML, xml.etree, "
-         "regex) and must agree on rule->status, file status and exit code; YAML==JSON as data, SARIF result count == failing checks, JUnit marks/counters. Groups of 2-3 rules files x 1-3 data files go through 13 "
-         "configurations (files, payload; plain, structured) and must agree on the exit code and the per-pair verdicts.",
+         "regex) and must agree on rule->status, file status and exit code; YAML==JSON as data, SARIF result count == failing checks, JUnit marks/counters. Groups of 2-3 rules files (distinct names, or one base name in different directories) x 1-3 data files, half of them with an "
+         "--input-parameters document, go through 13 configurations (files, payload; plain, structured) and must agree on the exit code and the per-pair verdicts; "
+         "documents and custom messages carry markup-significant characters (<, &, quotes).",
     note="Console reporters show only what -S selects: containment there, equality for -S all. The Lambda handler itself cannot be linked; it is covered via run_checks with its argument pattern.",
     ref="DESIGN.md §6 P-C07")
 
@@ -112,7 +114,7 @@ CHECKS["C12"] = dict(
     text="Batches of 1-3 rules files that share variable and rule names with different definitions x 2-4 documents differing exactly in the "
          "queried keys are validated as explicit files in several orders (plain and structured), as directories with -a and -m (explicit mtimes), "
          "as payload lists (half of the batches with an --input-parameters document read by every rules file), as structured junit and sarif batches (per-data-file testsuite / result units vs the stand-alone run), and as multi-case `test` files; every (rules, data) pair's report must equal the report of the pair validated alone and "
-         "the exit status must be the maximum over the pairs. verif-hooks events assert one root scope per pair and no memo hit before a miss in a scope.",
+         "the exit status must be the maximum over the pairs (40% of the batches end with a rules file every document satisfies). verif-hooks events assert one root scope per pair and no memo hit before a miss in a scope.",
     note="Reports are compared after removing file names and line/column details. In structured mode compliant/not_applicable are name sets by design.",
     ref="DESIGN.md §6 P-C12")
 
@@ -121,7 +123,8 @@ CHECKS["C16"] = dict(
     text="Generated rules files (45% with a doubly defined rule name, 40% with file-level clauses = the `default` rule) x 1-4 documents x all 3^k expectation assignments (k<=3) incl. rules without "
          "expectation are run through `test` in plain/json/yaml/junit rendering and files/--dir layout (tests files under every extension the directory walk accepts, -a/-m ordering); each (case, rule) outcome (met / unmet / no "
          "expectation), the evaluated statuses of unmet expectations and the exit code 0/7 must follow from the statuses `validate --print-json` "
-         "assigns to that rule on the same input, and all renderings must carry the same relation; every JUnit failures=/errors= attribute must equal the number of <failure>/<error> elements below it.",
+         "assigns to that rule on the same input, and all renderings must carry the same relation; half of the runs have a second test-data file (-t <dir> / --dir); a template written with 14 short-form tags is used as test input with "
+         "expectations equal to validate's statuses (all met, exit 0) and with one deliberately wrong (exit 7); every JUnit failures=/errors= attribute must equal the number of <failure>/<error> elements below it.",
     note="validate's print-json record is the reference for per-definition statuses. Output order is C05's concern, relations are compared as sets.",
     ref="DESIGN.md §6 P-C16")
 
@@ -139,7 +142,7 @@ CHECKS["C19"] = dict(
     technique="runtime monitoring: round-trip monitor (rulegen -> parse-tree -> validate on the source and on a mutated template)",
     text="Generated CloudFormation-shaped templates (1-5 resources over 1-3 types; plain and 17 classes of odd strings, ints incl. 2^53+1 and i64::MIN, floats (fraction / integral / exponent), bools, nested "
          "lists/maps; repeated, re-typed (50 vs \"50\") and distinct values; uniform and non-uniform property sets) are fed to `rulegen` as a real process (twice); unless an "
-         "error is reported the output must parse to exactly one rule per resource type with properties, every rule must PASS on the source "
+         "error is reported the output must parse to exactly one rule per resource type with properties (type names incl. `-` and `@`), the --output file (absent, empty, longer, prefixed before) must equal stdout, every rule must PASS on the source "
          "template, and the rule of a type must FAIL after one scalar property value is changed to an unseen value.",
     note="A rulegen crash is C08's concern (inconclusive here). Failing self-validations are attributed to value classes so that the two known findings stay narrow.",
     ref="DESIGN.md §6 P-C19")
@@ -148,18 +151,19 @@ CHECKS["C18"] = dict(
     technique="runtime monitoring: reference-model monitor (independent Python implementation of docs/FUNCTIONS.md) over observed function results",
     text="`let r = f(args)` is evaluated for every function x 19 argument queries (unicode, numeric strings, mixed-type lists, unresolved members, empty "
          "selections) x literal/query/variable/nested forms, substring over 13x13 offsets (incl. -1, len, >=65536), join delimiters and empty members, "
-         "regex_replace full/partial/no match, random literals, and json round trips on random documents; the result list is read back through a failing "
+         "regex_replace full/partial/no match, 45 boolean/integer/float spellings one by one, random literals, and json round trips on random documents; the result list is read back through a failing "
          "clause on %r and compared, type-strictly and in order, with the reference; unparsable input must raise an error, never a value.",
     note="The reference abstains (UNSPEC, counted in evidence) where the documentation is silent; Python re / urllib / float parsing are trusted on the restricted inputs.",
     ref="DESIGN.md §6 P-C18")
 
 CHECKS["C11"] = dict(
     technique="runtime monitoring: model-vs-loaded differential monitor over serialisations x loaders (hooked loader probes + verdict channels); Miri on the loader in the thorough tier",
-    text="Generated documents (unicode, digits-only, empty, keyword-looking strings, i64 bounds, extreme floats) are written by a position-tracking "
+    text="Generated documents (unicode, digits-only, empty, keyword-looking strings, i64 bounds, extreme and random-bit-pattern floats, block scalars) and an 18-document corpus of "
+         "placeholder-like shapes (single-key null maps next to lists, empty containers, hand-written long-form intrinsics) are written by a position-tracking "
          "emitter as JSON compact/pretty, YAML flow and YAML block with random quoting/indent/comments; the verif-hooks loader probes dump every loaded "
          "node for the validate (libyaml) and the test/library (serde) loader and are compared type-strictly, incl. key and list order, with the model; "
          "the document must equal its own Guard literal and pass per-path type probes through validate, --payload, run_checks and test; all 21 tags x "
-         "{scalar, sequence} x 3 nestings are compared with their long form; ill-formed texts and non-string keys must be rejected by all 6 front ends. "
+         "{scalar, sequence} x 3 nestings are compared with their long form, the YAML core tags (!!str, !!int, !!float, !!bool, !!null) must type a scalar as they say in both loaders; ill-formed texts and non-string keys must be rejected by all 6 front ends. "
          "Thorough tier: ~90 documents (hostile texts, generated serialisations, tag documents) are loaded by the libyaml loader under Miri (undefined-behaviour interpreter).",
     note="Strings that YAML or Guard would type as non-strings are always emitted quoted (spellings outside the property are not generated plain). "
          "Multi-document streams and aliases are out of the statement.",
@@ -167,8 +171,8 @@ CHECKS["C11"] = dict(
 
 CHECKS["C10"] = dict(
     technique="runtime monitoring: independent pointer-walk and source-position monitor over structured reports and hooked loader dumps",
-    text="Documents written by a position-tracking emitter in 4 layouts are validated against rules that fail on every node (one clause per scalar, "
-         "unresolved probes below every map/list/scalar, `in`, list iteration and query right-hand sides); every reported from/to/traversed_to {path, "
+    text="Documents (incl. random doubles, 64-bit integers, YAML literal/folded block scalars; CRLF, leading blank lines, tab-indented JSON) written by a position-tracking emitter in 4 layouts are validated against rules that fail on every node (one clause per scalar, "
+         "unresolved probes below every map/list/scalar incl. keys taken from variables (`a.%k`), `in`, list iteration, filter-then-[*] on lists of lists and query right-hand sides); every reported from/to/traversed_to {path, "
          "value} is resolved in the model document by an independent walk and must yield exactly that value, unresolved reports must stop at the "
          "deepest existing point of the queried path, and every [L,C] in messages - and, through the verif-hooks loader probe, of every scalar node - "
          "must equal the line/column where the emitter wrote that scalar.",
@@ -177,10 +181,10 @@ CHECKS["C10"] = dict(
 
 CHECKS["C08"] = dict(
     technique="runtime monitoring: crash/hang watchdog monitor over mutation and adversarial-grammar workloads, an arithmetic-overflow-checked build of the same worker, plus valgrind memcheck on the unsafe YAML loader paths",
-    text="Mutated rule texts, 33 adversarial but grammatical program shapes (filters after this/index/filter/keys, literal and function LHS, unary "
-         "operators on literals, mismatched/empty/unresolved function arguments, huge indices, self/mutual/when recursion, duplicate-name cycles, odd custom messages, wrong arity, backtracking "
+    text="Mutated rule texts, 41 adversarial but grammatical program shapes (filters after this/index/filter/keys, literal and function LHS, unary "
+         "operators on literals, mismatched/empty/unresolved function arguments, huge indices, self/mutual/when recursion, duplicate-name cycles, cyclic variable definitions, recursive parameterised rules, NaN/infinity operands, odd custom messages, wrong arity, backtracking "
          "regexes, multi-byte substrings ...), generated programs with all features on, and 24 hostile documents plus mutated ones (as data, parameter file, "
-         "test spec, payload envelope), CloudFormation- and Terraform-plan-shaped documents (template-aware console views) and ~60 omitted/conflicting/unsupported argument combinations are run through validate (files, payload, structured), test, parse-tree, rulegen (real processes, non-UTF-8 files) and "
+         "test spec, payload envelope), CloudFormation- and Terraform-plan-shaped documents (template-aware console views) and ~60 omitted/conflicting/unsupported argument combinations are run through validate (files, payload, structured, `.ruleset` files and mixed rules directories), test, parse-tree, rulegen (real processes, non-UTF-8 files) and "
          "run_checks. The worker captures panics with file:line, the orchestrator attributes process deaths and watchdog expiries to the running job; rejected "
          "rules files must name line and column and evaluate nothing; valgrind memcheck watches the libyaml loader, payload and FFI paths. A second worker "
          "compiled with overflow checks runs the same front ends and, as a crash sweep, the quick workloads of C18 and C13 (thorough: also C01, C03, C10, C15, C11, C17).",
